@@ -40,6 +40,7 @@ int64_t nv_g;          /* ghost index: an arbitrary element position, fixed befo
 double nv_old_g;       /* the source's element nv_g before the call */
 _Bool nv_alias;        /* the source view lies inside the destination's own buffer */
 int64_t nv_off;        /* ... at this offset */
+_Bool nv_null;         /* alias harnesses: a source view of an EMPTY tensor carries a null data() (like the empty owning destination) */
 
 /* nano::size(dims): the product of the extents (proved on the SMT side: size<R> == P_0, >= 0 under the tensor invariant).
  * Rank 1: the only extent.  Ranks 2, 3: the product is NAMED, never computed (one 64-bit multiplication inside a contract
